@@ -341,6 +341,49 @@ theorem open_flags_valid_iff (r w t c n : Bool) :
     (openFlags r w t c n).isSome = ((r || w) && (w || !(t || c || n))) := by
   cases r <;> cases w <;> cases t <;> cases c <;> cases n <;> rfl
 
+/-! ### custom flags and creation mode -/
+
+open Compio.Gen.OpenFlags (customMasks defaultMode)
+
+/-- std `File::open_c`: `custom_flags & !O_ACCMODE` (the two low bits are cleared) -/
+def stdCustom (f : Nat) : Nat := f / 4 * 4
+
+/-- what `custom_flags(f)` keeps (the masks are regenerated from `open_options/unix.rs`) is what std keeps -/
+theorem custom_flags_eq_std (f : Nat) : keepCustom customMasks f = stdCustom f := by
+  simp [customMasks, keepCustom, clearMask, stdCustom]
+
+theorem flagWord_mod4 (fl : List OFlag) (a b : Nat) (h : a % 4 = b % 4) :
+    flagWord fl a % 4 = flagWord fl b % 4 := by
+  unfold flagWord
+  induction fl generalizing a b with
+  | nil => simpa using h
+  | cons x xs ih =>
+    simp only [List.foldl_cons]
+    apply ih
+    have e : (4 : Nat) = 2 ^ 2 := rfl
+    rw [e, Nat.or_mod_two_pow, Nat.or_mod_two_pow, ← e, h]
+
+/-- **custom flags never change the access mode**: for every flag list and every custom value the access
+mode (two low bits) of the word passed to `openat` is the one selected with `read()`/`write()` -/
+theorem custom_flags_keep_access_mode (fl : List OFlag) (f : Nat) :
+    flagWord fl (keepCustom customMasks f) % 4 = flagWord fl 0 % 4 := by
+  apply flagWord_mod4
+  rw [custom_flags_eq_std]
+  simp [stdCustom]
+
+/-- ... which is std's: `O_RDONLY`/`O_WRONLY`/`O_RDWR` by (read, write), on all 32 settings, whatever the custom flags -/
+theorem access_mode_eq_std (r w t c n : Bool) (f : Nat) (fl : List OFlag) (h : openFlags r w t c n = some fl) :
+    flagWord fl (keepCustom customMasks f) % 4 = (if r && w then 2 else if w then 1 else 0) := by
+  rw [custom_flags_keep_access_mode]
+  cases r <;> cases w <;> cases t <;> cases c <;> cases n <;> simp [openFlags, Gen.OpenFlags.accessMode,
+    Gen.OpenFlags.creationMode] at h <;> subst h <;> rfl
+
+/-- `OpenOptions::new()` creates with std's default mode -/
+theorem default_mode_eq_std : defaultMode = 0o666 := rfl
+
+example : keepCustom customMasks (0o400000 + 1) = 0o400000 := by decide
+example : flagWord [.CLOEXEC, .RDONLY] (keepCustom customMasks (0o400000 + 1)) % 4 = 0 := by decide
+
 example : openFlags true true false true false = some [.CLOEXEC, .RDWR, .CREATE] := rfl
 example : openFlags true false true false false = none := rfl
 
